@@ -22,6 +22,12 @@
 //!     `!` / `-`, every kind of atom, method calls / fields / `?` and binary
 //!     operators, nested; values on the JIT against documented values and
 //!     against the fully parenthesised form.
+//!  I. f-string text parts (`src/c09/fstext.rs`): every short sequence over an
+//!     alphabet of escape sequences, lone backslashes, `u`, `x`, hex digits,
+//!     single and doubled braces, escaped quotes and multi-byte characters —
+//!     real parse tree and JIT value vs an independent decoder of the
+//!     documented grammar vs the Lean models (hand model; model run with the
+//!     backslash arm GENERATED from `unescape_f_string_part`).
 //!
 //! usage: c09 run <seed> <quick|thorough>
 //!        c09 replay <json>
@@ -39,6 +45,8 @@ mod lookahead;
 mod postfix;
 #[path = "../c09/firstchar.rs"]
 mod firstchar;
+#[path = "../c09/fstext.rs"]
+mod fstext;
 
 // ------------------------------------------------------------------ operators
 
@@ -1234,6 +1242,9 @@ fn run(seed: u64, thorough: bool) -> Report {
     // H. first character × literal kind (seed-independent table)
     firstchar::run(&mut rep);
 
+    // I. f-string text parts: escape sequences × brace escapes (seed-independent, exhaustive short sequences)
+    fstext::run(&mut rep, &mut drv, thorough);
+
     // F. bracketed constructs × mode-switching tokens (boundary tables first)
     lookahead::run(&mut rep, &mut drv, &mut p, thorough);
 
@@ -1272,6 +1283,9 @@ fn run(seed: u64, thorough: bool) -> Report {
         rep.notes.push("paren-equivalence on the JIT skipped: the parse trees already differ from the documented grouping".into());
     }
     check_rejected_chains(&mut rep);
+
+    // I, random part: longer fragment sequences
+    fstext::run_random(&mut rep, &mut drv, &mut p, thorough);
 
     // C. literals
     known_witnesses(&mut rep, &mut drv);
@@ -1394,7 +1408,7 @@ fn replay(case: &Value) -> Report {
             }
         }
         other => {
-            if !lookahead::replay(&mut rep, case) && !postfix::replay(&mut rep, case) {
+            if !lookahead::replay(&mut rep, case) && !postfix::replay(&mut rep, case) && !fstext::replay(&mut rep, case) {
                 rep.notes.push(format!("unknown replay kind {other}"));
             }
         }
